@@ -432,10 +432,13 @@ func corr(seed uint64, n int) {
 	fmt.Fprintf(out, "CTX\tavcsps\t%s\n", strings.Join(avcSPSHex, ","))
 	fmt.Fprintf(out, "CTX\tavcpps\t%s\n", strings.Join(avcPPSHex, ","))
 	fmt.Fprintf(out, "CTX\thevcpt\t%s\n", hevcPicTimingCtx())
+	fmt.Fprintf(out, "CTX\thevcsps\t%s\n", strings.Join(hevcSPSHex, ","))
+	fmt.Fprintf(out, "CTX\thevcpps\t%s\n", strings.Join(hevcModelPPSHex, ","))
 	forRounds(n, func(round, m int) {
 		cs := append(walkerCases(seed, round, m, n), seiCorrCases(seed+7, round, m, n)...)
 		cs = append(cs, stage2CorrCases(seed+11, round, m, n)...)
 		cs = append(cs, confRecCorrCases(seed+13, round, m/10, n/10)...)
+		cs = append(cs, hevcModelCorrCases(seed+17, round, m, n)...)
 		r.batch(cs, func(i int, res result) {
 			c := cs[i]
 			if res.class == "skipped" {
